@@ -18,6 +18,7 @@ import (
 	_ "crypto/sha512"
 	"os"
 	"path/filepath"
+	"strconv"
 	"strings"
 
 	"oras.land/oras-go/v2/verifharness/evidence"
@@ -60,13 +61,18 @@ func main() {
 	} else {
 		r.Inconclusive("no race binary (VERIF_RACE_BIN unset): race-detector phase skipped")
 	}
-	code := r.Write(r.N(300, 8000))
+	code := r.Write(r.N(800, 30000))
 	os.RemoveAll(tmp)
 	os.Exit(code)
 }
 
 func runCase(phase string, i int) worker.Result {
-	seed := evidence.New("C06", "exploration").Seed
+	// the seed is read directly: evidence.New also parses known_findings.json, which a
+	// worker does not need (and which may be mid-edit while a long run is in flight)
+	seed := int64(1)
+	if n, err := strconv.ParseInt(os.Getenv("VERIF_SEED"), 10, 64); err == nil {
+		seed = n
+	}
 	switch phase {
 	case "seq":
 		return runSeq(i, seed)
